@@ -48,6 +48,7 @@ _IO_MODULES = ("pathlib.py", "shutil.py", "os.py", "genericpath.py", "posixpath.
 FOREIGN_POINT_BUDGET = 300_000   # per run: beyond this, foreign (non-package) frames run atomically again
 _ACTIVE = None          # the Scheduler currently running (one per process at a time)
 SINGLE_THREADED = True  # outside a simulation the harness processes have exactly one thread
+_MAIN_IDENT = _thread.get_ident()
 _real_allocate = _thread.allocate_lock
 
 
@@ -81,8 +82,9 @@ class SimLock:
             if not ok:
                 if not blocking or (timeout is not None and timeout >= 0):
                     return False              # a timed acquire gives up (no other thread will ever release it)
-                if SINGLE_THREADED:
+                if SINGLE_THREADED and _thread.get_ident() == _MAIN_IDENT and _ACTIVE is None:
                     raise SimDeadlock("blocking acquire of a lock that is held, with no other thread to release it")
+                # a real thread the package started on its own (not owned by the simulator): wait for real
                 ok = self._real.acquire(blocking, timeout)
             if ok:
                 self._owner = _thread.get_ident()
